@@ -19,6 +19,8 @@ class C05Spec(explore.Spec):
         out = [{"version": v, "cb": None} for v in ("1.4", "1.5", "2.0", "2.1", "2.2")]
         if tier == "thorough":
             out += [{"version": "2.2", "cb": None, "flavour": "async"}, {"version": "2.2", "cb": None, "transport": "mqtt"}]
+        # persistence on: a stop + fresh start in the middle of a conversation (reboot request pending, reply withheld)
+        out += [{"version": "2.2", "cb": None, "persistence": fmt, "focus": "restart", "depth": 4} for fmt in ("pickle", "json")]
         out += [{"version": v, "cb": None, "focus": "node0", "depth": 5} for v in (("1.4", "2.2") if tier == "quick" else ("1.4", "1.5", "2.0", "2.1", "2.2"))]
         return out
 
@@ -49,6 +51,8 @@ class C05Spec(explore.Spec):
                 ("rx2", t["CFG"], t["CFGB"]),
             ]
         extra += [alpha.rx(x) for x in ACKED]
+        if cfg.get("focus") == "restart":
+            return alpha.events(v, ["SA0", "RA0", "WA", "CFG", "PA"]) + [("fw", 1, 1, 1, "F1"), ("set", 1, 0, 2, "0"), ("tick",), ("restart",)]
         if cfg.get("focus") == "node0":
             # small alphabet around the gateway's own node id 0 (a gateway with local sensors presents as node 0)
             evs = [alpha.rx(x.replace("{v}", v)) for x in NODE0] + alpha.events(v, ["PA", "CA0", "RA0", "CFG", "GWR", "BAT"])
@@ -61,6 +65,8 @@ class C05Spec(explore.Spec):
     def roots(self, cfg):
         t = alpha.lines(cfg["version"])
         roots = [()]
+        if cfg.get("focus") == "restart":
+            return [tuple(alpha.rx(t[n]) for n in ("PA", "CA0", "SA0"))]
         if cfg.get("focus"):
             return roots
         if "WA" in t:
